@@ -5,6 +5,7 @@ import SideVerif.Drive.C07
 import SideVerif.Drive.C16
 import SideVerif.Drive.C18
 import SideVerif.Drive.C13
+import SideVerif.Drive.C02
 open Lean
 namespace SideVerif.Drive
 
@@ -19,6 +20,7 @@ def dispatch (op : String) (j : Json) : Except String Json :=
   | "c16" => c16 j
   | "c18" => c18 j
   | "c13" => c13 j
+  | "c02" => c02 j
   | "ping" => pure (Json.str "pong")
   | _ => throw s!"unknown op {op}"
 
